@@ -116,9 +116,9 @@ def mismatch_signature(m):
 
 
 # --------------------------------------------------------------------------- driver rounds
-def drive(ctx, binary, W, behs, random=0, trace_sample=0, perm_limit=24, seed=None):
+def drive(ctx, binary, W, behs, random=0, trace_sample=0, perm_limit=24, seed=None, light=False):
     job = {"W": W, "L4": L4, "behaviours": behs, "random": random, "random_w": W, "trace_sample": trace_sample,
-           "perm_limit": perm_limit, "max_mismatch": 40}
+           "perm_limit": perm_limit, "max_mismatch": 40, "light": light}
     env = {"VERIF_SEED": str(seed)} if seed is not None else None
     recs, _ = vlib.run_driver(ctx, binary, stdin_obj=job, timeout=1700, env_extra=env)
     summ = [r for r in recs if r.get("kind") == "summary"]
@@ -275,7 +275,8 @@ def run(ctx):
             if len(x["ps"]) >= 2 and 0 < sum(x["x6"]) < len(x["x6"]):
                 nontrivial.add((W, json.dumps(x, sort_keys=True)))
         summ, mism, runs = drive(ctx, binary, W, behs, random=(600 if T else 150) if gi == 0 or W == 5 and gi == 2 else 0,
-                                 trace_sample=max(1, len(behs) * 8 // (400 if T else 120)))
+                                 trace_sample=max(1, len(behs) * 8 // (400 if T else 120)),
+                                 perm_limit=3 if gi >= 3 else 24, light=gi >= 3)
         for k in tot:
             tot[k] += summ[k]
         report_mismatches(ctx, W, mism)
